@@ -189,12 +189,14 @@ Definition group_in (e : env) (k : rkind) (w : stores) (g : group) (c : sid) : t
       {| t_src := sget w c; t_dst := sget w (g_data g); t_cache := Some (sget w (g_data g));
          t_parse := e_parse e; t_corrupt := fun _ => false; t_req := g_req g;
          t_shallow := true; t_verify := false; t_dix := Some []; t_six := None;
+         t_dnoop := true; t_snoop := false;
          t_fails := e_fails e (g_data g); t_part := fun _ => false; t_trunc := fun _ => [];
          t_dord := e_dord e; t_bord := e_bord e |}
   | RFetch =>
       {| t_src := sget w (g_data g); t_dst := sget w c; t_cache := Some (sget w c);
          t_parse := e_parse e; t_corrupt := fun _ => false; t_req := g_req g;
          t_shallow := true; t_verify := false; t_dix := None; t_six := Some [];
+         t_dnoop := false; t_snoop := true;
          t_fails := e_fails e c; t_part := fun _ => false; t_trunc := fun _ => [];
          t_dord := e_dord e; t_bord := e_bord e |}
   end.
